@@ -278,6 +278,15 @@ func (x *Exec) park(p *parked) int {
 	return <-p.wake
 }
 
+// Put stores a value in Data under the execution's lock. Harness goroutines must use it for writes: they
+// usually run one at a time, but not during teardown, and a goroutine can be descheduled in the middle of a
+// map write (GC assist), which makes a second writer die with "concurrent map writes".
+func (x *Exec) Put(k string, v any) {
+	x.mu.Lock()
+	x.Data[k] = v
+	x.mu.Unlock()
+}
+
 // Obs appends an observation to the execution's log (part of its outcome).
 func (x *Exec) Obs(format string, a ...any) {
 	s := fmt.Sprintf(format, a...)
